@@ -19,11 +19,10 @@
           attempt_count += 1
           try: self.connect(stored url/headers/auth/transports/namespaces/socketio_path)
           except (ConnectionError, ValueError): pass
-          else: break
+          else: self._reconnect_task = None; break       -- cleared on this exit ONLY
           if self.reconnection_attempts and attempt_count >= self.reconnection_attempts:
               … __disconnect_final per namespace; break
-      self._reconnect_task = None            -- on EVERY exit (repaired: it used to be cleared on
-      reconnecting_clients.remove(self)      -- success only, which blocked every later effort)
+      reconnecting_clients.remove(self)
 
   Indices are 0-based here: iteration `k` performs the `(k+1)`-th wait and, unless aborted, the
   `(k+1)`-th attempt.  `attempt_count` equals the iteration index at the top of every iteration
@@ -175,13 +174,13 @@ def attemptEvents {P : Type} (cfg : Cfg) (nss : List Ns) : Outcome → List (Ev 
   | .lost => [.notified (eioStateDuring .transportError)
                 (startsEffort cfg (eioStateDuring .transportError) true)]
 
-/-- the end of the effort.  On every exit the bookkeeping is cleared (`_reconnect_task = None`,
-    `reconnecting_clients.remove(self)`); the two are observed as the state after the effort, their
-    relative order is not. -/
+/-- the end of the effort.  `_reconnect_task = None` is executed on the success path ONLY (known
+    finding `stale-reconnect-task`: after a give-up or an abort the finished task object stays in
+    `_reconnect_task`); `reconnecting_clients.remove(self)` on every exit. -/
 def finalEvents {P : Type} (nss : List Ns) : Final → List (Ev P)
   | .connected => [.taskCleared, .left]
-  | .gaveUp => nss.map (fun n => .handler .disconnectFinal n) ++ [.taskCleared, .left]
-  | .aborted => nss.map (fun n => .handler .disconnectFinal n) ++ [.taskCleared, .left]
+  | .gaveUp => nss.map (fun n => .handler .disconnectFinal n) ++ [.left]
+  | .aborted => nss.map (fun n => .handler .disconnectFinal n) ++ [.left]
   | .running => []
 
 def body {P : Type} (cfg : Cfg) (s : Stored P) (outs : Nat → Outcome) (attempts : Nat) :
@@ -240,11 +239,31 @@ def step {P : Type} (c : Cli P) : Input P → Option (Cli P × List (Ev P))
       if start then
         let (r, evs) := effort c.cfg s sc.outs sc.rands sc.abortAt sc.fuel
         let c' : Cli P := { c with connected := r.final == .connected,
-                                   task := r.final == .running }
+                                   task := r.final != .connected }
         some (c', hs ++ [.notified st true] ++ evs)
       else
         some ({ c with connected := false }, hs ++ [.notified st false])
     | _, _ => none
+
+/-- Region of the known finding `stale-reconnect-task`: this input starts an effort that does not
+    end connected (give-up, abort, or still running when the observation stops). -/
+def effortFailed {P : Type} (c : Cli P) : Input P → Bool
+  | .connect _ => false
+  | .lose cause sc =>
+    match c.connected, c.stored with
+    | true, some s =>
+      startsEffort c.cfg (eioStateDuring cause) c.task &&
+        (effort c.cfg s sc.outs sc.rands sc.abortAt sc.fuel).1.final != .connected
+    | _, _ => false
+
+/-- no effort of the history failed -/
+def cleanHistory {P : Type} (c : Cli P) : List (Input P) → Bool
+  | [] => true
+  | i :: is =>
+    !effortFailed c i &&
+      match step c i with
+      | none => true
+      | some (c', _) => cleanHistory c' is
 
 def run {P : Type} (c : Cli P) : List (Input P) → Option (Cli P × List (Ev P))
   | [] => some (c, [])
